@@ -292,6 +292,7 @@ def var2h_case(draw):
             "P": draw(st.sampled_from([3600, 3600, 1800, 900, 0])),
             "maxgap": draw(st.sampled_from([3600, 432000, 2**31 - 1, 0])),
             "rain": draw(st.sampled_from([False, True, 2])),
+            "display": draw(st.sampled_from([False, True, True, 2, -1])),
             "extreme": True}
 
 
@@ -303,7 +304,8 @@ def _(c):
     idx = pd.DatetimeIndex([t0 + pd.Timedelta(seconds=int(s))
                             for s in secs])
     se = pd.Series(A(c["vals"]), index=idx)
-    dutils.var2h(se, c["P"], c["maxgap"], c["rain"])
+    dutils.var2h(se, c["P"], c["maxgap"], c["rain"],
+                 c.get("display", False))
 
 
 @st.composite
@@ -421,9 +423,17 @@ def _(c):
 
 @st.composite
 def ar_case(draw):
-    p = draw(st.one_of(st.sampled_from([0, 1, 2, 10, 11, 12, 25]),
+    # orders around the largest supported one (10) carry half the weight
+    p = draw(st.one_of(st.sampled_from([0, 1, 2, 9, 10, 10, 10, 11, 12, 25]),
+                       st.sampled_from([10, 10, 9, 11]),
                        st.integers(0, 12)))
-    return {"params": draw(farr(p, maxbig=False)), "x": draw(farr()),
+    if draw(st.booleans()):
+        # a model the kernel accepts: finite coefficients
+        params = draw(st.lists(st.floats(-1., 1., allow_nan=False),
+                               min_size=p, max_size=p))
+    else:
+        params = draw(farr(p, maxbig=False))
+    return {"params": params, "x": draw(farr()),
             "mean": draw(fval), "ini": draw(st.one_of(st.none(), fval))}
 
 
